@@ -49,6 +49,9 @@ var detPureCalls = map[string]string{
 	"TrimPrefix":         "pure",
 }
 
+// detFnKey identifies the function being classified ("pkg|Func") for the reviewed-sort table.
+var detFnKey string
+
 type detSite struct {
 	pkg    string
 	fn     string
@@ -71,23 +74,52 @@ func isMapType(t types.Type) bool {
 }
 
 // sortedAfter: is slice variable `name` passed to a sort function after pos within fn?
-func sortedAfter(info *types.Info, fn *ast.FuncDecl, name string, pos token.Pos) bool {
-	found := false
+// Returns "" (not sorted), "total" (sort.Strings/Ints/Float64s, slices.Sort: a total order on the
+// values themselves, ties are indistinguishable) or "custom:<callee>" (comparison function or
+// user-defined sorter: ties keep the map-dependent input order).
+func sortedAfter(info *types.Info, fn *ast.FuncDecl, name string, pos token.Pos) string {
+	found := ""
 	ast.Inspect(fn.Body, func(n ast.Node) bool {
 		ce, ok := n.(*ast.CallExpr)
-		if !ok || ce.Pos() < pos {
+		if !ok || ce.Pos() < pos || len(ce.Args) < 1 {
 			return true
 		}
 		pkg, _, nm := callee(info, ce)
-		if (pkg == "sort" || pkg == "slices" || strings.Contains(strings.ToLower(nm), "sort")) && len(ce.Args) >= 1 {
-			a := exprStr(ce.Args[0])
-			if a == name || strings.Contains(a, "("+name+")") {
-				found = true
+		a := exprStr(ce.Args[0])
+		if !(a == name || strings.Contains(a, "("+name+")")) {
+			return true
+		}
+		switch {
+		case pkg == "sort" && (nm == "Strings" || nm == "Ints" || nm == "Float64s"):
+			found = "total"
+		case pkg == "slices" && nm == "Sort":
+			found = "total"
+		case pkg == "sort" || pkg == "slices" || strings.Contains(strings.ToLower(nm), "sort"):
+			if found == "" {
+				found = "custom:" + nm
 			}
 		}
 		return true
 	})
 	return found
+}
+
+// custom sorts of map-ordered data whose key was confirmed unique by reading
+var detUniqueKeySorts = map[string]string{
+	"build|Session.GetSortedSources|SortedSourcesSlice": "sorted by ImportPath, which is the key of the map the slice was filled from",
+}
+
+func sortVerdict(fnKey, kind string) (string, string) {
+	switch {
+	case kind == "total":
+		return "insensitive", ""
+	case strings.HasPrefix(kind, "custom:"):
+		if _, ok := detUniqueKeySorts[fnKey+"|"+strings.TrimPrefix(kind, "custom:")]; ok {
+			return "insensitive", ""
+		}
+		return "unclassified", "the slice is filled in map order and then ordered by " + strings.TrimPrefix(kind, "custom:") + " with a custom comparison: elements that compare equal keep their map-dependent order, and the checker cannot show the key is unique"
+	}
+	return "", ""
 }
 
 // classifyBody decides whether the statements are order-insensitive.
@@ -139,8 +171,8 @@ func classifyStmt(info *types.Info, fn *ast.FuncDecl, loop ast.Node, st ast.Stmt
 					if ix, isIx := s.Lhs[0].(*ast.IndexExpr); isIx && isMapType(info.TypeOf(ix.X)) && mentionsAny(ix.Index, loopVars) {
 						return "insensitive", "" // append to the map element keyed by the loop variable
 					}
-					if sortedAfter(info, fn, target, loop.End()) {
-						return "insensitive", ""
+					if cls, why := sortVerdict(detFnKey, sortedAfter(info, fn, target, loop.End())); cls != "" {
+						return cls, why
 					}
 					return "sensitive", fmt.Sprintf("appends to %s in map order and %s is not sorted afterwards in this function", target, target)
 				}
@@ -155,8 +187,10 @@ func classifyStmt(info *types.Info, fn *ast.FuncDecl, loop ast.Node, st ast.Stmt
 						continue
 					}
 					// filling a slice that is sorted afterwards
-					if sortedAfter(info, fn, exprStr(x.X), loop.End()) {
+					if cls, why := sortVerdict(detFnKey, sortedAfter(info, fn, exprStr(x.X), loop.End())); cls == "insensitive" {
 						continue
+					} else if cls != "" {
+						return cls, why
 					}
 					return "sensitive", "indexed store into a non-map " + exprStr(x)
 				}
@@ -275,6 +309,7 @@ func detSites(c *ctx.Ctx) []*detSite {
 					if x.Value != nil {
 						lv[exprStr(x.Value)] = true
 					}
+					detFnKey = pk + "|" + fn
 					s.class, s.reason = classifyBody(info, fd, x, x.Body.List, lv)
 					out = append(out, s)
 				case *ast.CallExpr:
@@ -290,6 +325,7 @@ func detSites(c *ctx.Ctx) []*detSite {
 						if fl, ok := x.Args[0].(*ast.FuncLit); ok {
 							s := &detSite{pkg: pk, fn: fn, node: x, kind: recv + "." + nm + " callback", ord: ord}
 							ord++
+							detFnKey = pk + "|" + fn
 							s.class, s.reason = classifyBody(info, fd, x, fl.Body.List, nil)
 							out = append(out, s)
 						}
@@ -392,7 +428,7 @@ func ruleDET(prop string) RuleFunc {
 						nsort++
 						less := nodeString(c, ce.Args[1])
 						// the comparison must be on a unique key: import path, file name, or the full rendered value
-						ok := strings.Contains(less, ".Path()") || strings.Contains(less, "getFileName(") || strings.Contains(less, ".ImportPath") || strings.Contains(less, ".Name()") || strings.Contains(less, ".String()") || strings.Contains(less, "Filename") || strings.Contains(less, "[i] < ") || strings.Contains(less, ".Pos()")
+						ok := strings.Contains(less, ".Path()") || strings.Contains(less, "getFileName(") || strings.Contains(less, ".ImportPath")  || strings.Contains(less, ".String()") || strings.Contains(less, "Filename") || strings.Contains(less, "[i] < ") || strings.Contains(less, ".Pos()")
 						key := fmt.Sprintf("sort.Slice:%s.%s", pk, ctx.FuncName(fd))
 						if ok {
 							r.OK(key, c.Pos(ce.Pos()), "unstable sort on a key that is unique among the sorted elements: "+strings.Join(strings.Fields(less), " "))
